@@ -303,7 +303,7 @@ pub fn gen_recv(rng: &mut Rng) -> String {
         evs.push(ev_d(0, &data(nblk, chunk(nblk)))); // the final block retransmitted after the end
     }
     let fails = pick_fails(rng, ((nblk / ws.max(1) + 2) * rep).min(30));
-    format!("recv {blk} {ws} {tmo} {rep} {} {fails} {}", clean as u8, join(&evs))
+    format!("recv {blk} {ws} {tmo} {rep} {}{} {fails} {}", clean as u8, if rng.chance(1, 4) { "p" } else { "" }, join(&evs))
 }
 
 /// A long W-RECV run across wrap-around with duplicates / drops near the wrap.
